@@ -104,28 +104,28 @@ theorem Sim.pure {α} (a : α) : Sim (pure a : SM α) (Res.ok a) := Sim.of_eq rf
 
 theorem Sim.ok_inv {α} {x : SM α} {y : Res α} (h : Sim x y) (a : α) (hx : x = .ok a) : y = .ok a := h.1.1 a hx
 
-/-- folds with an invariant on the model's side -/
-theorem Sim.foldlM {α σ} (Inv : σ → Prop) (f : σ → α → SM σ) (g : σ → α → Res σ) :
-    ∀ (l : List α), (∀ st a, a ∈ l → Inv st → Sim (f st a) (g st a) ∧ ∀ st', g st a = .ok st' → Inv st') →
-      ∀ (s : σ), Inv s → Sim (l.foldlM f s) (l.foldlM g s) ∧ ∀ s', l.foldlM g s = .ok s' → Inv s' := by
+/-- folds with a counter-indexed invariant on the model's side: every step uses up one unit -/
+theorem Sim.foldlM {α σ} (Inv : Nat → σ → Prop) (f : σ → α → SM σ) (g : σ → α → Res σ) :
+    ∀ (l : List α), (∀ k st a, a ∈ l → Inv (k + 1) st → Sim (f st a) (g st a) ∧ ∀ st', g st a = .ok st' → Inv k st') →
+      ∀ (k : Nat) (s : σ), Inv (k + l.length) s → Sim (l.foldlM f s) (l.foldlM g s) ∧ ∀ s', l.foldlM g s = .ok s' → Inv k s' := by
   intro l
   induction l with
   | nil =>
-    intro _ s hs
+    intro _ k s hs
     refine ⟨Sim.of_eq rfl, fun s' h => ?_⟩
     simp only [List.foldlM_nil, Res.pure_eq] at h
     cases h; exact hs
   | cons a t ih =>
-    intro hstep s hs
-    have ih' := ih (fun st b hb => hstep st b (List.mem_cons_of_mem _ hb))
+    intro hstep k s hs
+    have ih' := ih (fun k st b hb => hstep k st b (List.mem_cons_of_mem _ hb))
     simp only [List.foldlM_cons]
-    obtain ⟨h1, h2⟩ := hstep s a List.mem_cons_self hs
-    refine ⟨Sim.bind h1 (fun st' hst => (ih' st' (h2 st' hst)).1), fun s' h => ?_⟩
+    obtain ⟨h1, h2⟩ := hstep (k + t.length) s a List.mem_cons_self hs
+    refine ⟨Sim.bind h1 (fun st' hst => (ih' k st' (h2 st' hst)).1), fun s' h => ?_⟩
     cases hg : g s a with
     | ok st' =>
       rw [hg] at h
       simp only [res_bind_ok] at h
-      exact (ih' st' (h2 st' hg)).2 s' h
+      exact (ih' k st' (h2 st' hg)).2 s' h
     | err => rw [hg] at h; cases h
     | panic => rw [hg] at h; cases h
     | outOfFuel => rw [hg] at h; cases h
@@ -220,49 +220,58 @@ theorem checkLimits_eq (cfg : Config) (F : Fork) (block : SignedBlock) :
     simp only [toRes_bind, toRes_require, fork_ge, Fork.toNat, toRes_ite, toRes_pure, ge_iff_le] <;> rfl
 
 
-/-- one operation kind, for the operations `l` of the block: under the invariant the model simulates the specification,
-keeps the invariant, and (`frame`) leaves the deposit bookkeeping of the state alone -/
-def Step {β} (Inv : State → Prop) (frame : Bool) (l : List β) (f : State → β → SM State) (g : State → β → Res State) : Prop :=
-  ∀ st x, x ∈ l → Inv st → Sim (f st x) (g st x) ∧
-    ∀ st', g st x = .ok st' → Inv st' ∧
+/-- one operation kind, for the operations `l` of the block: under the invariant with at least one unit of budget the
+model simulates the specification, the accepted result satisfies the invariant with one unit less, and (`frame`) the
+deposit bookkeeping of the state is left alone -/
+def Step {β} (Inv : Nat → State → Prop) (frame : Bool) (l : List β) (f : State → β → SM State) (g : State → β → Res State) : Prop :=
+  ∀ k st x, x ∈ l → Inv (k + 1) st → Sim (f st x) (g st x) ∧
+    ∀ st', g st x = .ok st' → Inv k st' ∧
       (frame = true → st'.eth1_data = st.eth1_data ∧ st'.eth1_deposit_index = st.eth1_deposit_index)
 
 /-- What the composition needs about the operations of a block of fork `F`, for an invariant `Inv ctx st` on the
 context the code carries along and the state. Every field is discharged, for concrete invariants, by one of the
 operation theorems (`…_eq`) together with a preservation lemma. -/
-structure OpSteps (cfg : Config) (block : SignedBlock) (F : Fork) (Inv : Ctx → State → Prop) : Prop where
-  fork : ∀ ctx st, Inv ctx st → st.fork = F
-  header : ∀ ctx st, Inv ctx st →
+structure OpSteps (cfg : Config) (block : SignedBlock) (F : Fork) (Inv : Nat → Ctx → State → Prop) : Prop where
+  mono : ∀ k ctx st, Inv (k + 1) ctx st → Inv k ctx st
+  fork : ∀ k ctx st, Inv k ctx st → st.fork = F
+  header : ∀ k ctx st, Inv (k + 1) ctx st →
     Sim (Block.process_block_header cfg st block) (ofOpt ctx.proposer >>= fun p => processHeader st block p) ∧
-    ∀ st', (ofOpt ctx.proposer >>= fun p => processHeader st block p) = .ok st' → Inv ctx st'
+    ∀ st', (ofOpt ctx.proposer >>= fun p => processHeader st block p) = .ok st' → Inv k ctx st'
   payload : ∀ ctx payload, block.execution_payload = some payload →
-    Step (Inv ctx) false [()] (fun st _ => Block.process_execution_payload cfg st block payload)
+    Step (fun k => Inv k ctx) false [()] (fun st _ => Block.process_execution_payload cfg st block payload)
       (fun st _ => processExecutionPayload cfg st block payload)
   withdrawals : ∀ ctx payload, block.execution_payload = some payload →
-    Step (Inv ctx) false [()] (fun st _ => Block.process_withdrawals cfg st payload) (fun st _ => processWithdrawals cfg st payload)
-  randao : ∀ ctx, Step (Inv ctx) false [()] (fun st _ => Block.process_randao cfg st block) (fun st _ => processRandaoReveal cfg ctx st block)
-  eth1 : ∀ ctx, Step (Inv ctx) false [()] (fun st _ => Block.process_eth1_data cfg st block) (fun st _ => processEth1Vote cfg st block.eth1_data)
-  proposerSlashing : ∀ ctx, Step (Inv ctx) true block.proposer_slashings (Block.process_proposer_slashing cfg) (processProposerSlashing cfg ctx)
-  attesterSlashing : ∀ ctx, Step (Inv ctx) true block.attester_slashings (Block.process_attester_slashing cfg) (processAttesterSlashing cfg ctx)
-  attestation : ∀ ctx, Step (Inv ctx) true block.attestations (Block.process_attestation cfg)
+    Step (fun k => Inv k ctx) false [()] (fun st _ => Block.process_withdrawals cfg st payload) (fun st _ => processWithdrawals cfg st payload)
+  randao : ∀ ctx, Step (fun k => Inv k ctx) false [()] (fun st _ => Block.process_randao cfg st block) (fun st _ => processRandaoReveal cfg ctx st block)
+  eth1 : ∀ ctx, Step (fun k => Inv k ctx) false [()] (fun st _ => Block.process_eth1_data cfg st block) (fun st _ => processEth1Vote cfg st block.eth1_data)
+  proposerSlashing : ∀ ctx, Step (fun k => Inv k ctx) true block.proposer_slashings (Block.process_proposer_slashing cfg) (processProposerSlashing cfg ctx)
+  attesterSlashing : ∀ ctx, Step (fun k => Inv k ctx) true block.attester_slashings (Block.process_attester_slashing cfg) (processAttesterSlashing cfg ctx)
+  attestation : ∀ ctx, Step (fun k => Inv k ctx) true block.attestations (Block.process_attestation cfg)
     (if F = .phase0 then processAttestationPhase0 cfg ctx else processAttestationAltair cfg ctx)
-  deposit : ∀ ctx st d, d ∈ block.deposits → Inv ctx st →
+  deposit : ∀ k ctx st d, d ∈ block.deposits → Inv (k + 1) ctx st →
     Sim (Block.process_deposit cfg st d) (processDeposit cfg ctx st d >>= fun r => Res.ok r.2) ∧
-    ∀ r, processDeposit cfg ctx st d = .ok r → Inv r.1 r.2
-  exit : ∀ ctx, Step (Inv ctx) false block.voluntary_exits (Block.process_voluntary_exit cfg) (processVoluntaryExit cfg ctx)
-  blsChange : ∀ ctx, Step (Inv ctx) false block.bls_to_execution_changes (Block.process_bls_to_execution_change cfg)
+    ∀ r, processDeposit cfg ctx st d = .ok r → Inv k r.1 r.2
+  exit : ∀ ctx, Step (fun k => Inv k ctx) false block.voluntary_exits (Block.process_voluntary_exit cfg) (processVoluntaryExit cfg ctx)
+  blsChange : ∀ ctx, Step (fun k => Inv k ctx) false block.bls_to_execution_changes (Block.process_bls_to_execution_change cfg)
     (fun st op => processBLSToExecutionChange st op)
   sync : ∀ ctx agg, block.sync_aggregate = some agg →
-    Step (Inv ctx) false [()] (fun st _ => Block.process_sync_aggregate cfg st agg) (fun st _ => processSyncAggregate cfg ctx st agg)
+    Step (fun k => Inv k ctx) false [()] (fun st _ => Block.process_sync_aggregate cfg st agg) (fun st _ => processSyncAggregate cfg ctx st agg)
 
-theorem Step.fold {β} {Inv : State → Prop} {frame : Bool} {l : List β} {f : State → β → SM State} {g : State → β → Res State}
-    (h : Step Inv frame l f g) (E : Eth1Data) (I : Nat) (s : State)
-    (hs : Inv s ∧ (frame = true → s.eth1_data = E ∧ s.eth1_deposit_index = I)) :
+theorem OpSteps.mono_le {cfg : Config} {block : SignedBlock} {F : Fork} {Inv : Nat → Ctx → State → Prop} (H : OpSteps cfg block F Inv)
+    (ctx : Ctx) (st : State) : ∀ (n k : Nat), Inv (k + n) ctx st → Inv k ctx st := by
+  intro n
+  induction n with
+  | zero => intro k h; exact h
+  | succ n ih => intro k h; exact ih k (H.mono (k + n) ctx st h)
+
+theorem Step.fold {β} {Inv : Nat → State → Prop} {frame : Bool} {l : List β} {f : State → β → SM State} {g : State → β → Res State}
+    (h : Step Inv frame l f g) (E : Eth1Data) (I : Nat) (k : Nat) (s : State)
+    (hs : Inv (k + l.length) s ∧ (frame = true → s.eth1_data = E ∧ s.eth1_deposit_index = I)) :
     Sim (l.foldlM f s) (l.foldlM g s) ∧
-    ∀ s', l.foldlM g s = .ok s' → Inv s' ∧ (frame = true → s'.eth1_data = E ∧ s'.eth1_deposit_index = I) := by
-  apply Sim.foldlM (fun st => Inv st ∧ (frame = true → st.eth1_data = E ∧ st.eth1_deposit_index = I)) f g l _ s hs
-  intro st x hx ⟨hi, hfr⟩
-  obtain ⟨h1, h2⟩ := h st x hx hi
+    ∀ s', l.foldlM g s = .ok s' → Inv k s' ∧ (frame = true → s'.eth1_data = E ∧ s'.eth1_deposit_index = I) := by
+  apply Sim.foldlM (fun k st => Inv k st ∧ (frame = true → st.eth1_data = E ∧ st.eth1_deposit_index = I)) f g l _ k s hs
+  intro k st x hx ⟨hi, hfr⟩
+  obtain ⟨h1, h2⟩ := h k st x hx hi
   refine ⟨h1, fun st' hst' => ?_⟩
   obtain ⟨h3, h4⟩ := h2 st' hst'
   refine ⟨h3, fun hf => ?_⟩
@@ -300,23 +309,31 @@ theorem Sim.delay3 {α β} {x1 : SM α} {y1 : Res α} {f2 f3 : α → SM α} {g2
   exact Sim.delay_guard2 c1 c2 c1' c2' m1 m2 hx hc hf
 
 
-theorem deposits_fold {cfg : Config} {block : SignedBlock} {F : Fork} {Inv : Ctx → State → Prop} (H : OpSteps cfg block F Inv) :
-    ∀ (l : List Deposit), (∀ d ∈ l, d ∈ block.deposits) → ∀ (ctx : Ctx) (st : State), Inv ctx st →
+/-- the budget the operation lists of a block use up: one unit per operation -/
+def opsNeed (block : SignedBlock) (k : Nat) : Nat :=
+  k + block.bls_to_execution_changes.length + block.voluntary_exits.length + block.deposits.length +
+    block.attestations.length + block.attester_slashings.length + block.proposer_slashings.length
+
+/-- the budget a whole block uses up: header, withdrawals, payload, randao, eth1 vote, the operations, sync aggregate -/
+def blockNeed (block : SignedBlock) (k : Nat) : Nat := opsNeed block (k + 1) + 5
+
+theorem deposits_fold {cfg : Config} {block : SignedBlock} {F : Fork} {Inv : Nat → Ctx → State → Prop} (H : OpSteps cfg block F Inv) :
+    ∀ (l : List Deposit), (∀ d ∈ l, d ∈ block.deposits) → ∀ (k : Nat) (ctx : Ctx) (st : State), Inv (k + l.length) ctx st →
       Sim (l.foldlM (Block.process_deposit cfg) st)
         (l.foldlM (fun (acc : Ctx × State) d => processDeposit cfg acc.1 acc.2 d) (ctx, st) >>= fun r => Res.ok r.2) ∧
-      ∀ r, l.foldlM (fun (acc : Ctx × State) d => processDeposit cfg acc.1 acc.2 d) (ctx, st) = .ok r → Inv r.1 r.2 := by
+      ∀ r, l.foldlM (fun (acc : Ctx × State) d => processDeposit cfg acc.1 acc.2 d) (ctx, st) = .ok r → Inv k r.1 r.2 := by
   intro l
   induction l with
   | nil =>
-    intro _ ctx st hi
+    intro _ k ctx st hi
     refine ⟨Sim.of_eq rfl, fun r hr => ?_⟩
     simp only [List.foldlM_nil, Res.pure_eq] at hr
     cases hr; exact hi
   | cons d t ih =>
-    intro hsub ctx st hi
-    have ih := ih (fun x hx => hsub x (List.mem_cons_of_mem _ hx))
+    intro hsub k ctx st hi
+    have ih := ih (fun x hx => hsub x (List.mem_cons_of_mem _ hx)) k
     simp only [List.foldlM_cons]
-    obtain ⟨h1, h2⟩ := H.deposit ctx st d (hsub d List.mem_cons_self) hi
+    obtain ⟨h1, h2⟩ := H.deposit (k + t.length) ctx st d (hsub d List.mem_cons_self) hi
     constructor
     · rw [res_bind_assoc]
       apply Sim.bind_proj Prod.snd h1
@@ -335,9 +352,10 @@ theorem deposits_fold {cfg : Config} {block : SignedBlock} {F : Fork} {Inv : Ctx
 theorem min_if (a b : Nat) : (if b > a then a else b) = min a b := by
   rw [Nat.min_def]; split <;> split <;> omega
 
-theorem preDeposits_sim {cfg : Config} {block : SignedBlock} {F : Fork} {Inv : Ctx → State → Prop} (H : OpSteps cfg block F Inv)
-    (ctx : Ctx) (st : State) :
-    ∀ s0, Inv ctx s0 ∧ (true = true → s0.eth1_data = st.eth1_data ∧ s0.eth1_deposit_index = st.eth1_deposit_index) →
+theorem preDeposits_sim {cfg : Config} {block : SignedBlock} {F : Fork} {Inv : Nat → Ctx → State → Prop} (H : OpSteps cfg block F Inv)
+    (ctx : Ctx) (st : State) (k : Nat) :
+    ∀ s0, Inv (k + block.attestations.length + block.attester_slashings.length + block.proposer_slashings.length) ctx s0 ∧
+        (true = true → s0.eth1_data = st.eth1_data ∧ s0.eth1_deposit_index = st.eth1_deposit_index) →
     Sim (List.foldlM (Block.process_proposer_slashing cfg) s0 block.proposer_slashings >>= fun a =>
           List.foldlM (Block.process_attester_slashing cfg) a block.attester_slashings >>= fun b =>
           List.foldlM (Block.process_attestation cfg) b block.attestations)
@@ -349,35 +367,35 @@ theorem preDeposits_sim {cfg : Config} {block : SignedBlock} {F : Fork} {Inv : C
           List.foldlM (processAttesterSlashing cfg ctx) a block.attester_slashings >>= fun b =>
           (if b.fork = Fork.phase0 then List.foldlM (processAttestationPhase0 cfg ctx) b block.attestations
             else List.foldlM (processAttestationAltair cfg ctx) b block.attestations)) = .ok c →
-      Inv ctx c ∧ (true = true → c.eth1_data = st.eth1_data ∧ c.eth1_deposit_index = st.eth1_deposit_index) := by
+      Inv k ctx c ∧ (true = true → c.eth1_data = st.eth1_data ∧ c.eth1_deposit_index = st.eth1_deposit_index) := by
   intro s0 hs0
-  obtain ⟨p1, p2⟩ := (H.proposerSlashing ctx).fold st.eth1_data st.eth1_deposit_index s0 hs0
-  have hatt : ∀ b, Inv ctx b → (if b.fork = Fork.phase0 then List.foldlM (processAttestationPhase0 cfg ctx) b block.attestations
+  obtain ⟨p1, p2⟩ := (H.proposerSlashing ctx).fold st.eth1_data st.eth1_deposit_index _ s0 hs0
+  have hatt : ∀ j b, Inv j ctx b → (if b.fork = Fork.phase0 then List.foldlM (processAttestationPhase0 cfg ctx) b block.attestations
             else List.foldlM (processAttestationAltair cfg ctx) b block.attestations) =
           List.foldlM (if F = .phase0 then processAttestationPhase0 cfg ctx else processAttestationAltair cfg ctx) b block.attestations := by
-    intro b hb
-    rw [H.fork ctx b hb]
+    intro j b hb
+    rw [H.fork j ctx b hb]
     by_cases hp : F = .phase0 <;> simp only [hp, if_true, if_false]
   constructor
   · apply Sim.bind p1
     intro a ha
-    obtain ⟨q1, q2⟩ := (H.attesterSlashing ctx).fold st.eth1_data st.eth1_deposit_index a (p2 a ha)
+    obtain ⟨q1, q2⟩ := (H.attesterSlashing ctx).fold st.eth1_data st.eth1_deposit_index _ a (p2 a ha)
     apply Sim.bind q1
     intro b hb
-    rw [hatt b (q2 b hb).1]
-    exact ((H.attestation ctx).fold st.eth1_data st.eth1_deposit_index b (q2 b hb)).1
+    rw [hatt _ b (q2 b hb).1]
+    exact ((H.attestation ctx).fold st.eth1_data st.eth1_deposit_index k b (q2 b hb)).1
   · intro c hc
     cases ha : List.foldlM (processProposerSlashing cfg ctx) s0 block.proposer_slashings with
     | ok a =>
       rw [ha] at hc
       simp only [res_bind_ok] at hc
-      obtain ⟨q1, q2⟩ := (H.attesterSlashing ctx).fold st.eth1_data st.eth1_deposit_index a (p2 a ha)
+      obtain ⟨q1, q2⟩ := (H.attesterSlashing ctx).fold st.eth1_data st.eth1_deposit_index _ a (p2 a ha)
       cases hb : List.foldlM (processAttesterSlashing cfg ctx) a block.attester_slashings with
       | ok b =>
         rw [hb] at hc
         simp only [res_bind_ok] at hc
-        rw [hatt b (q2 b hb).1] at hc
-        exact ((H.attestation ctx).fold st.eth1_data st.eth1_deposit_index b (q2 b hb)).2 c hc
+        rw [hatt _ b (q2 b hb).1] at hc
+        exact ((H.attestation ctx).fold st.eth1_data st.eth1_deposit_index k b (q2 b hb)).2 c hc
       | err => rw [hb] at hc; cases hc
       | panic => rw [hb] at hc; cases hc
       | outOfFuel => rw [hb] at hc; cases hc
@@ -386,16 +404,16 @@ theorem preDeposits_sim {cfg : Config} {block : SignedBlock} {F : Fork} {Inv : C
     | outOfFuel => rw [ha] at hc; cases hc
 
 set_option maxHeartbeats 2000000 in
-theorem operations_sim {cfg : Config} {block : SignedBlock} {F : Fork} {Inv : Ctx → State → Prop} (H : OpSteps cfg block F Inv)
-    (ctx : Ctx) (st : State) (hi : Inv ctx st) :
+theorem operations_sim {cfg : Config} {block : SignedBlock} {F : Fork} {Inv : Nat → Ctx → State → Prop} (H : OpSteps cfg block F Inv)
+    (k : Nat) (ctx : Ctx) (st : State) (hi : Inv (opsNeed block k) ctx st) :
     Sim (Block.process_operations cfg st block) (processOperations cfg ctx st block >>= fun r => Res.ok r.2) := by
-  have hF := H.fork ctx st hi
+  have hF := H.fork _ ctx st hi
   unfold Block.process_operations processOperations processDeposits foldOps
   simp only [res_bind_assoc]
   apply Sim.bind (Sim.of_eq (checkLimits_eq cfg st.fork block))
   intro _ _
   -- the three folds before the deposits, with the deposit bookkeeping of the state as frame
-  have hpre := preDeposits_sim H ctx st
+  have hpre := preDeposits_sim H ctx st (k + block.bls_to_execution_changes.length + block.voluntary_exits.length + block.deposits.length)
   obtain ⟨hx, hpost⟩ := hpre st ⟨hi, fun _ => ⟨rfl, rfl⟩⟩
   refine Sim.delay3 (decide (st.eth1_data.deposit_count ≥ st.eth1_deposit_index))
     (decide (block.deposits.length = min cfg.MAX_DEPOSITS (st.eth1_data.deposit_count - st.eth1_deposit_index)))
@@ -415,18 +433,18 @@ theorem operations_sim {cfg : Config} {block : SignedBlock} {F : Fork} {Inv : Ct
     · trivial
   · intro c hc
     obtain ⟨hic, _⟩ := hpost c hc
-    obtain ⟨d1, d2⟩ := deposits_fold H block.deposits (fun _ h => h) ctx c hic
+    obtain ⟨d1, d2⟩ := deposits_fold H block.deposits (fun _ h => h) _ ctx c hic
     apply Sim.bind_proj Prod.snd d1
     intro r hr
     have hir := d2 r hr
-    obtain ⟨e1, e2⟩ := (H.exit r.1).fold st.eth1_data st.eth1_deposit_index r.2 ⟨hir, fun h => by cases h⟩
+    obtain ⟨e1, e2⟩ := (H.exit r.1).fold st.eth1_data st.eth1_deposit_index _ r.2 ⟨hir, fun h => by cases h⟩
     apply Sim.bind e1
     intro s5 hs5
     have hi5 := (e2 s5 hs5).1
-    rw [H.fork r.1 s5 hi5]
+    rw [H.fork _ r.1 s5 hi5]
     by_cases hcap : F ≥ Fork.capella
     · simp only [hcap, if_true]
-      obtain ⟨b1, b2⟩ := (H.blsChange r.1).fold st.eth1_data st.eth1_deposit_index s5 ⟨hi5, fun h => by cases h⟩
+      obtain ⟨b1, b2⟩ := (H.blsChange r.1).fold st.eth1_data st.eth1_deposit_index k s5 ⟨hi5, fun h => by cases h⟩
       have hid : ∀ y : Res State, (y >>= fun a => Res.ok a) = y := by intro y; cases y <;> rfl
       simp only [Res.pure_eq, res_bind_ok]
       rw [hid]
@@ -435,9 +453,9 @@ theorem operations_sim {cfg : Config} {block : SignedBlock} {F : Fork} {Inv : Ct
       exact Sim.pure s5
 
 set_option maxHeartbeats 2000000 in
-theorem operations_inv {cfg : Config} {block : SignedBlock} {F : Fork} {Inv : Ctx → State → Prop} (H : OpSteps cfg block F Inv)
-    (ctx : Ctx) (st : State) (hi : Inv ctx st) :
-    ∀ r, processOperations cfg ctx st block = .ok r → Inv r.1 r.2 := by
+theorem operations_inv {cfg : Config} {block : SignedBlock} {F : Fork} {Inv : Nat → Ctx → State → Prop} (H : OpSteps cfg block F Inv)
+    (k : Nat) (ctx : Ctx) (st : State) (hi : Inv (opsNeed block k) ctx st) :
+    ∀ r, processOperations cfg ctx st block = .ok r → Inv k r.1 r.2 := by
   intro r h
   unfold processOperations processDeposits foldOps at h
   simp only [res_bind_assoc] at h
@@ -446,7 +464,8 @@ theorem operations_inv {cfg : Config} {block : SignedBlock} {F : Fork} {Inv : Ct
     rw [hl] at h
     simp only [res_bind_ok] at h
     rw [res_assoc3] at h
-    obtain ⟨_, hpost⟩ := preDeposits_sim H ctx st st ⟨hi, fun _ => ⟨rfl, rfl⟩⟩
+    obtain ⟨_, hpost⟩ := preDeposits_sim H ctx st (k + block.bls_to_execution_changes.length + block.voluntary_exits.length + block.deposits.length)
+      st ⟨hi, fun _ => ⟨rfl, rfl⟩⟩
     cases hc : (List.foldlM (processProposerSlashing cfg ctx) st block.proposer_slashings >>= fun a =>
             List.foldlM (processAttesterSlashing cfg ctx) a block.attester_slashings >>= fun b =>
             (if b.fork = Fork.phase0 then List.foldlM (processAttestationPhase0 cfg ctx) b block.attestations
@@ -465,22 +484,22 @@ theorem operations_inv {cfg : Config} {block : SignedBlock} {F : Fork} {Inv : Ct
         | false => simp only [Bool.false_eq_true, if_false, if_true] at h; cases h
         | true =>
           simp only [if_true] at h
-          obtain ⟨_, d2⟩ := deposits_fold H block.deposits (fun _ h => h) ctx c hic
+          obtain ⟨_, d2⟩ := deposits_fold H block.deposits (fun _ h => h) _ ctx c hic
           cases hd : List.foldlM (fun (acc : Ctx × State) d => processDeposit cfg acc.1 acc.2 d) (ctx, c) block.deposits with
           | ok x =>
             rw [hd] at h
             simp only [res_bind_ok] at h
             have hix := d2 x hd
-            obtain ⟨_, e2⟩ := (H.exit x.1).fold st.eth1_data st.eth1_deposit_index x.2 ⟨hix, fun h => by cases h⟩
+            obtain ⟨_, e2⟩ := (H.exit x.1).fold st.eth1_data st.eth1_deposit_index _ x.2 ⟨hix, fun h => by cases h⟩
             cases he : List.foldlM (processVoluntaryExit cfg x.1) x.2 block.voluntary_exits with
             | ok s5 =>
               rw [he] at h
               simp only [res_bind_ok] at h
               have hi5 := (e2 s5 he).1
-              rw [H.fork x.1 s5 hi5] at h
+              rw [H.fork _ x.1 s5 hi5] at h
               by_cases hcap : F ≥ Fork.capella
               · simp only [hcap, if_true] at h
-                obtain ⟨_, b2⟩ := (H.blsChange x.1).fold st.eth1_data st.eth1_deposit_index s5 ⟨hi5, fun h => by cases h⟩
+                obtain ⟨_, b2⟩ := (H.blsChange x.1).fold st.eth1_data st.eth1_deposit_index k s5 ⟨hi5, fun h => by cases h⟩
                 cases hb : List.foldlM (fun s op => processBLSToExecutionChange s op) s5 block.bls_to_execution_changes with
                 | ok s6 =>
                   rw [hb] at h
@@ -492,7 +511,7 @@ theorem operations_inv {cfg : Config} {block : SignedBlock} {F : Fork} {Inv : Ct
                 | outOfFuel => rw [hb] at h; cases h
               · simp only [hcap, if_false, Res.pure_eq, res_bind_ok] at h
                 cases h
-                exact hi5
+                exact H.mono_le x.1 s5 _ k hi5
             | err => rw [he] at h; cases h
             | panic => rw [he] at h; cases h
             | outOfFuel => rw [he] at h; cases h
@@ -513,9 +532,10 @@ theorem Sim.bind2 {α β γ} {x : SM α} {y0 : Res γ} {y1 : γ → Res α} {f :
   rw [← res_bind_assoc]; exact Sim.bind hx hf
 
 /-- `Step` for an operation without an argument, as `Sim` + invariant -/
-theorem Step.unit {Inv : State → Prop} {frame : Bool} {f : State → Unit → SM State} {g : State → Unit → Res State}
-    (h : Step Inv frame [()] f g) (st : State) (hi : Inv st) : Sim (f st ()) (g st ()) ∧ ∀ st', g st () = .ok st' → Inv st' :=
-  ⟨(h st () (List.mem_singleton.mpr rfl) hi).1, fun st' hst' => ((h st () (List.mem_singleton.mpr rfl) hi).2 st' hst').1⟩
+theorem Step.unit {Inv : Nat → State → Prop} {frame : Bool} {f : State → Unit → SM State} {g : State → Unit → Res State}
+    (h : Step Inv frame [()] f g) (k : Nat) (st : State) (hi : Inv (k + 1) st) :
+    Sim (f st ()) (g st ()) ∧ ∀ st', g st () = .ok st' → Inv k st' :=
+  ⟨(h k st () (List.mem_singleton.mpr rfl) hi).1, fun st' hst' => ((h k st () (List.mem_singleton.mpr rfl) hi).2 st' hst').1⟩
 
 /-- `M`'s counterpart of `Block.process_block_rest` -/
 def modelTail (cfg : Config) (ctx : Ctx) (block : SignedBlock) (s : State) : Res State := do
@@ -527,86 +547,79 @@ def modelTail (cfg : Config) (ctx : Ctx) (block : SignedBlock) (s : State) : Res
   processSyncAggregate cfg ctx s agg
 
 set_option maxHeartbeats 4000000 in
-theorem tail_sim {cfg : Config} {block : SignedBlock} {F : Fork} {Inv : Ctx → State → Prop} (H : OpSteps cfg block F Inv)
-    (ctx : Ctx) (s1 : State) (i1 : Inv ctx s1) : Sim (Block.process_block_rest cfg s1 block) (modelTail cfg ctx block s1) := by
+theorem tail_sim {cfg : Config} {block : SignedBlock} {F : Fork} {Inv : Nat → Ctx → State → Prop} (H : OpSteps cfg block F Inv)
+    (k : Nat) (ctx : Ctx) (s1 : State) (i1 : Inv (opsNeed block (k + 1) + 1 + 1) ctx s1) :
+    Sim (Block.process_block_rest cfg s1 block) (modelTail cfg ctx block s1) ∧
+    ∀ s', modelTail cfg ctx block s1 = .ok s' → ∃ ctx', Inv k ctx' s' := by
   unfold Block.process_block_rest modelTail
-  obtain ⟨h2, h2i⟩ := (H.randao ctx).unit s1 i1
-  apply Sim.bind h2
-  intro s2 hs2
-  have i2 := h2i s2 hs2
-  obtain ⟨h3, h3i⟩ := (H.eth1 ctx).unit s2 i2
-  apply Sim.bind h3
-  intro s3 hs3
-  have i3 := h3i s3 hs3
-  have hops := operations_sim H ctx s3 i3
-  have hopsi := operations_inv H ctx s3 i3
-  apply Sim.bind_proj Prod.snd hops
-  intro r hr
-  have ir := hopsi r hr
-  obtain ⟨c4, s4⟩ := r
-  simp only [] at ir ⊢
-  rw [H.fork c4 s4 ir]
-  by_cases hp : F = .phase0
-  · simp only [hp, if_true]
-    exact Sim.pure _
-  · simp only [hp, if_false]
-    cases hsa : block.sync_aggregate with
-    | none => exact sim_err _
-    | some sa =>
-      simp only [ofOpt, res_bind_ok]
-      exact ((H.sync c4 sa hsa).unit s4 ir).1
-
-/-- the invariant (for some context) after an accepted block -/
-theorem tail_inv {cfg : Config} {block : SignedBlock} {F : Fork} {Inv : Ctx → State → Prop} (H : OpSteps cfg block F Inv)
-    (ctx : Ctx) (s1 : State) (i1 : Inv ctx s1) : ∀ s', modelTail cfg ctx block s1 = .ok s' → ∃ ctx', Inv ctx' s' := by
-  intro s' h
-  unfold modelTail at h
-  obtain ⟨_, h2i⟩ := (H.randao ctx).unit s1 i1
-  cases hr : processRandaoReveal cfg ctx s1 block with
-  | ok s2 =>
-    rw [hr] at h
-    simp only [res_bind_ok] at h
-    obtain ⟨_, h3i⟩ := (H.eth1 ctx).unit s2 (h2i s2 hr)
-    cases he : processEth1Vote cfg s2 block.eth1_data with
-    | ok s3 =>
-      rw [he] at h
+  obtain ⟨h2, h2i⟩ := (H.randao ctx).unit _ s1 i1
+  constructor
+  · apply Sim.bind h2
+    intro s2 hs2
+    have i2 := h2i s2 hs2
+    obtain ⟨h3, h3i⟩ := (H.eth1 ctx).unit _ s2 i2
+    apply Sim.bind h3
+    intro s3 hs3
+    have i3 := h3i s3 hs3
+    have hops := operations_sim H (k + 1) ctx s3 i3
+    have hopsi := operations_inv H (k + 1) ctx s3 i3
+    apply Sim.bind_proj Prod.snd hops
+    intro r hr
+    have ir := hopsi r hr
+    obtain ⟨c4, s4⟩ := r
+    simp only [] at ir ⊢
+    rw [H.fork _ c4 s4 ir]
+    by_cases hp : F = .phase0
+    · simp only [hp, if_true]
+      exact Sim.pure _
+    · simp only [hp, if_false]
+      cases hsa : block.sync_aggregate with
+      | none => exact sim_err _
+      | some sa =>
+        simp only [ofOpt, res_bind_ok]
+        exact ((H.sync c4 sa hsa).unit k s4 ir).1
+  · intro s' h
+    cases hr : processRandaoReveal cfg ctx s1 block with
+    | ok s2 =>
+      rw [hr] at h
       simp only [res_bind_ok] at h
-      have hopsi := operations_inv H ctx s3 (h3i s3 he)
-      cases ho : processOperations cfg ctx s3 block with
-      | ok r =>
-        rw [ho] at h
-        have ir := hopsi r ho
-        obtain ⟨c4, s4⟩ := r
-        simp only [res_bind_ok] at h ir
-        rw [H.fork c4 s4 ir] at h
-        by_cases hp : F = .phase0
-        · simp only [hp, if_true, Res.pure_eq] at h
-          cases h
-          exact ⟨c4, ir⟩
-        · simp only [hp, if_false] at h
-          cases hsa : block.sync_aggregate with
-          | none => rw [hsa] at h; cases h
-          | some sa =>
-            rw [hsa] at h
-            simp only [ofOpt, res_bind_ok] at h
-            exact ⟨c4, ((H.sync c4 sa hsa).unit s4 ir).2 s' h⟩
-      | err => rw [ho] at h; cases h
-      | panic => rw [ho] at h; cases h
-      | outOfFuel => rw [ho] at h; cases h
-    | err => rw [he] at h; cases h
-    | panic => rw [he] at h; cases h
-    | outOfFuel => rw [he] at h; cases h
-  | err => rw [hr] at h; cases h
-  | panic => rw [hr] at h; cases h
-  | outOfFuel => rw [hr] at h; cases h
+      obtain ⟨_, h3i⟩ := (H.eth1 ctx).unit _ s2 (h2i s2 hr)
+      cases he : processEth1Vote cfg s2 block.eth1_data with
+      | ok s3 =>
+        rw [he] at h
+        simp only [res_bind_ok] at h
+        have hopsi := operations_inv H (k + 1) ctx s3 (h3i s3 he)
+        cases ho : processOperations cfg ctx s3 block with
+        | ok r =>
+          rw [ho] at h
+          have ir := hopsi r ho
+          obtain ⟨c4, s4⟩ := r
+          simp only [res_bind_ok] at h ir
+          rw [H.fork _ c4 s4 ir] at h
+          by_cases hp : F = .phase0
+          · simp only [hp, if_true, Res.pure_eq] at h
+            cases h
+            exact ⟨c4, H.mono k c4 _ ir⟩
+          · simp only [hp, if_false] at h
+            cases hsa : block.sync_aggregate with
+            | none => rw [hsa] at h; cases h
+            | some sa =>
+              rw [hsa] at h
+              simp only [ofOpt, res_bind_ok] at h
+              exact ⟨c4, ((H.sync c4 sa hsa).unit k s4 ir).2 s' h⟩
+        | err => rw [ho] at h; cases h
+        | panic => rw [ho] at h; cases h
+        | outOfFuel => rw [ho] at h; cases h
+      | err => rw [he] at h; cases h
+      | panic => rw [he] at h; cases h
+      | outOfFuel => rw [he] at h; cases h
+    | err => rw [hr] at h; cases h
+    | panic => rw [hr] at h; cases h
+    | outOfFuel => rw [hr] at h; cases h
 
-set_option maxHeartbeats 4000000 in
-/-- `process_block` of `S` against `ProcessBlock` of `M` (any fork), given the operation steps -/
-theorem processBlock_sim {cfg : Config} {block : SignedBlock} {F : Fork} {Inv : Ctx → State → Prop} (H : OpSteps cfg block F Inv)
-    (ctx : Ctx) (st : State) (hi : Inv ctx st) (htyped : Block.check_types cfg block = .ok ()) :
-    Sim (Block.process_block cfg st block) (processBlock cfg ctx st block) := by
-  have hF := H.fork ctx st hi
-  have hM : processBlock cfg ctx st block = (do
+/-- the model's `ProcessBlock`, written with `modelTail` -/
+theorem processBlock_unfold (cfg : Config) (ctx : Ctx) (st : State) (block : SignedBlock) :
+    processBlock cfg ctx st block = (do
       BlockM.guard (block.fork = st.fork)
       let p ← ofOpt ctx.proposer
       let s ← processHeader st block p
@@ -620,24 +633,33 @@ theorem processBlock_sim {cfg : Config} {block : SignedBlock} {F : Fork} {Inv : 
           let s ← processWithdrawals cfg s payload
           processExecutionPayload cfg s block payload)
       modelTail cfg ctx block s) := rfl
-  rw [hM]
+
+set_option maxHeartbeats 4000000 in
+/-- `process_block` of `S` against `ProcessBlock` of `M` (any fork), given the operation steps: the simulation, and the
+invariant (with the budget that is left, for some context) after an accepted block -/
+theorem processBlock_sim {cfg : Config} {block : SignedBlock} {F : Fork} {Inv : Nat → Ctx → State → Prop} (H : OpSteps cfg block F Inv)
+    (k : Nat) (ctx : Ctx) (st : State) (hi : Inv (blockNeed block k) ctx st) (htyped : Block.check_types cfg block = .ok ()) :
+    Sim (Block.process_block cfg st block) (processBlock cfg ctx st block) := by
+  have hF := H.fork _ ctx st hi
+  rw [processBlock_unfold]
   unfold Block.process_block
   apply Sim.bind (Sim.require _ _)
   intro _ _
   rw [htyped]
-  obtain ⟨h1, h1i⟩ := H.header ctx st hi
+  obtain ⟨h1, h1i⟩ := H.header _ ctx st hi
   show Sim (Block.process_block_header cfg st block >>= _) _
   apply Sim.bind2 h1
   intro s1 hs1
-  have i1 := h1i s1 hs1
-  rw [H.fork ctx s1 i1]
+  have i1 : Inv (opsNeed block (k + 1) + 1 + 1 + 1 + 1) ctx s1 := h1i s1 hs1
+  have i1' : Inv (opsNeed block (k + 1) + 1 + 1) ctx s1 := H.mono _ ctx s1 (H.mono _ ctx s1 i1)
+  rw [H.fork _ ctx s1 i1]
   cases F with
   | phase0 =>
     simp only [Res.pure_eq, res_bind_ok]
-    exact tail_sim H ctx s1 i1
+    exact (tail_sim H k ctx s1 i1').1
   | altair =>
     simp only [Res.pure_eq, res_bind_ok]
-    exact tail_sim H ctx s1 i1
+    exact (tail_sim H k ctx s1 i1').1
   | bellatrix =>
     simp only []
     cases hpl : block.execution_payload with
@@ -646,43 +668,136 @@ theorem processBlock_sim {cfg : Config} {block : SignedBlock} {F : Fork} {Inv : 
       simp only [ofOpt, res_bind_ok]
       by_cases hen : Block.is_execution_enabled cfg s1 payload = true
       · simp only [hen, if_true]
-        obtain ⟨p1, p1i⟩ := (H.payload ctx payload hpl).unit s1 i1
+        obtain ⟨p1, p1i⟩ := (H.payload ctx payload hpl).unit _ s1 (H.mono _ ctx s1 i1)
         apply Sim.bind p1
         intro s2 hs2
-        exact tail_sim H ctx s2 (p1i s2 hs2)
+        exact (tail_sim H k ctx s2 (p1i s2 hs2)).1
       · simp only [hen, if_false, Res.pure_eq, res_bind_ok]
-        exact tail_sim H ctx s1 i1
+        exact (tail_sim H k ctx s1 i1').1
   | capella =>
     simp only []
     cases hpl : block.execution_payload with
     | none => exact sim_err _
     | some payload =>
       simp only [ofOpt, res_bind_ok, res_bind_assoc]
-      obtain ⟨w1, w1i⟩ := (H.withdrawals ctx payload hpl).unit s1 i1
+      obtain ⟨w1, w1i⟩ := (H.withdrawals ctx payload hpl).unit _ s1 i1
       show Sim (Block.process_withdrawals cfg s1 payload >>= _ >>= _) _
       rw [bind_assoc]
       apply Sim.bind w1
       intro s2 hs2
-      obtain ⟨p1, p1i⟩ := (H.payload ctx payload hpl).unit s2 (w1i s2 hs2)
+      obtain ⟨p1, p1i⟩ := (H.payload ctx payload hpl).unit _ s2 (w1i s2 hs2)
       apply Sim.bind p1
       intro s3 hs3
-      exact tail_sim H ctx s3 (p1i s3 hs3)
+      exact (tail_sim H k ctx s3 (p1i s3 hs3)).1
   | deneb =>
     simp only []
     cases hpl : block.execution_payload with
     | none => exact sim_err _
     | some payload =>
       simp only [ofOpt, res_bind_ok, res_bind_assoc]
-      obtain ⟨w1, w1i⟩ := (H.withdrawals ctx payload hpl).unit s1 i1
+      obtain ⟨w1, w1i⟩ := (H.withdrawals ctx payload hpl).unit _ s1 i1
       show Sim (Block.process_withdrawals cfg s1 payload >>= _ >>= _) _
       rw [bind_assoc]
       apply Sim.bind w1
       intro s2 hs2
-      obtain ⟨p1, p1i⟩ := (H.payload ctx payload hpl).unit s2 (w1i s2 hs2)
+      obtain ⟨p1, p1i⟩ := (H.payload ctx payload hpl).unit _ s2 (w1i s2 hs2)
       apply Sim.bind p1
       intro s3 hs3
-      exact tail_sim H ctx s3 (p1i s3 hs3)
+      exact (tail_sim H k ctx s3 (p1i s3 hs3)).1
 
+
+set_option maxHeartbeats 4000000 in
+/-- the invariant (with the budget that is left, for some context) after a block the model accepts -/
+theorem processBlock_inv {cfg : Config} {block : SignedBlock} {F : Fork} {Inv : Nat → Ctx → State → Prop} (H : OpSteps cfg block F Inv)
+    (k : Nat) (ctx : Ctx) (st : State) (hi : Inv (blockNeed block k) ctx st) :
+    ∀ st', processBlock cfg ctx st block = .ok st' → ∃ ctx', Inv k ctx' st' := by
+  intro st' h
+  rw [processBlock_unfold] at h
+  simp only [guard_bind, ofOpt_bind] at h
+  obtain ⟨_, h1i⟩ := H.header _ ctx st hi
+  split at h
+  · cases hp : ctx.proposer with
+    | none => rw [hp] at h; cases h
+    | some p =>
+      rw [hp] at h
+      simp only [] at h
+      cases hh : processHeader st block p with
+      | ok s1 =>
+        rw [hh] at h
+        simp only [res_bind_ok] at h
+        have i1 : Inv (opsNeed block (k + 1) + 1 + 1 + 1 + 1) ctx s1 := h1i s1 (by rw [hp]; exact hh)
+        have i1' : Inv (opsNeed block (k + 1) + 1 + 1) ctx s1 := H.mono _ ctx s1 (H.mono _ ctx s1 i1)
+        rw [H.fork _ ctx s1 i1] at h
+        cases F with
+        | phase0 =>
+          simp only [Res.pure_eq, res_bind_ok] at h
+          exact (tail_sim H k ctx s1 i1').2 st' h
+        | altair =>
+          simp only [Res.pure_eq, res_bind_ok] at h
+          exact (tail_sim H k ctx s1 i1').2 st' h
+        | bellatrix =>
+          simp only [] at h
+          cases hpl : block.execution_payload with
+          | none => rw [hpl] at h; cases h
+          | some payload =>
+            rw [hpl] at h
+            simp only [ofOpt, res_bind_ok] at h
+            by_cases hen : Block.is_execution_enabled cfg s1 payload = true
+            · simp only [hen, if_true] at h
+              obtain ⟨_, p1i⟩ := (H.payload ctx payload hpl).unit _ s1 (H.mono _ ctx s1 i1)
+              cases hx : processExecutionPayload cfg s1 block payload with
+              | ok s2 => rw [hx] at h; exact (tail_sim H k ctx s2 (p1i s2 hx)).2 st' h
+              | err => rw [hx] at h; cases h
+              | panic => rw [hx] at h; cases h
+              | outOfFuel => rw [hx] at h; cases h
+            · simp only [hen, if_false, Res.pure_eq, res_bind_ok] at h
+              exact (tail_sim H k ctx s1 i1').2 st' h
+        | capella =>
+          simp only [] at h
+          cases hpl : block.execution_payload with
+          | none => rw [hpl] at h; cases h
+          | some payload =>
+            rw [hpl] at h
+            simp only [ofOpt, res_bind_ok, res_bind_assoc] at h
+            obtain ⟨_, w1i⟩ := (H.withdrawals ctx payload hpl).unit _ s1 i1
+            cases hw : processWithdrawals cfg s1 payload with
+            | ok s2 =>
+              rw [hw] at h
+              simp only [res_bind_ok] at h
+              obtain ⟨_, p1i⟩ := (H.payload ctx payload hpl).unit _ s2 (w1i s2 hw)
+              cases hx : processExecutionPayload cfg s2 block payload with
+              | ok s3 => rw [hx] at h; exact (tail_sim H k ctx s3 (p1i s3 hx)).2 st' h
+              | err => rw [hx] at h; cases h
+              | panic => rw [hx] at h; cases h
+              | outOfFuel => rw [hx] at h; cases h
+            | err => rw [hw] at h; cases h
+            | panic => rw [hw] at h; cases h
+            | outOfFuel => rw [hw] at h; cases h
+        | deneb =>
+          simp only [] at h
+          cases hpl : block.execution_payload with
+          | none => rw [hpl] at h; cases h
+          | some payload =>
+            rw [hpl] at h
+            simp only [ofOpt, res_bind_ok, res_bind_assoc] at h
+            obtain ⟨_, w1i⟩ := (H.withdrawals ctx payload hpl).unit _ s1 i1
+            cases hw : processWithdrawals cfg s1 payload with
+            | ok s2 =>
+              rw [hw] at h
+              simp only [res_bind_ok] at h
+              obtain ⟨_, p1i⟩ := (H.payload ctx payload hpl).unit _ s2 (w1i s2 hw)
+              cases hx : processExecutionPayload cfg s2 block payload with
+              | ok s3 => rw [hx] at h; exact (tail_sim H k ctx s3 (p1i s3 hx)).2 st' h
+              | err => rw [hx] at h; cases h
+              | panic => rw [hx] at h; cases h
+              | outOfFuel => rw [hx] at h; cases h
+            | err => rw [hw] at h; cases h
+            | panic => rw [hw] at h; cases h
+            | outOfFuel => rw [hw] at h; cases h
+      | err => rw [hh] at h; cases h
+      | panic => rw [hh] at h; cases h
+      | outOfFuel => rw [hh] at h; cases h
+  · cases h
 
 /-- what an accepted `ProcessHeader` has checked -/
 theorem processHeader_ok (st st' : State) (block : SignedBlock) (p : Nat) (h : processHeader st block p = .ok st') :
@@ -701,11 +816,11 @@ set_option maxHeartbeats 4000000 in
 /-- `state_transition` after `process_slots` (block signature, `process_block`, state root) against
 `common.PostSlotTransition` with result validation. `o_post_root` is the hash-tree-root of the state the real code
 reaches; the hypothesis says that the harness could compute it. -/
-theorem postSlot_sim {cfg : Config} {block : SignedBlock} {F : Fork} {Inv : Ctx → State → Prop} (H : OpSteps cfg block F Inv)
-    (ctx : Ctx) (st : State) (hi : Inv ctx st) (htyped : Block.check_types cfg block = .ok ())
+theorem postSlot_sim {cfg : Config} {block : SignedBlock} {F : Fork} {Inv : Nat → Ctx → State → Prop} (H : OpSteps cfg block F Inv)
+    (k : Nat) (ctx : Ctx) (st : State) (hi : Inv (blockNeed block k) ctx st) (htyped : Block.check_types cfg block = .ok ())
     (r : Bytes) (hroot : block.o_post_root = some r) :
     Sim (Block.state_transition_post_slots cfg st block) (postSlotTransition cfg ctx st block) := by
-  have hb := processBlock_sim H ctx st hi htyped
+  have hb := processBlock_sim H k ctx st hi htyped
   unfold Block.state_transition_post_slots postSlotTransition Block.verify_block_signature
   simp only [hroot, guard_bind, ofOpt_bind]
   -- facts the model's own early checks need, from the model's `ProcessHeader`
